@@ -13,7 +13,7 @@ struct wv_probe
 
 struct Fixture
 {
-  std::vector<u8_t> PA, PB, PC, keyA, keyB, keyC, seed, fileA, fileB, tamperedB, garbage, modebyte, wrongkey;
+  std::vector<u8_t> PA, PB, PC, keyA, keyB, keyC, seed, fileA, fileB, fileC, tamperedA, tamperedB, tamperedC, garbage, modebyte, wrongkey, wrongA, wrongC;
   std::string dir, inpath, goodkey;
 } fx;
 
@@ -54,10 +54,13 @@ static u8_t *parse(std::vector<std::string> args)
   return get_v_opt((int)keep.size(), argv.data());
 }
 
-static const int NOPS = 16;
+static const int NOPS = 28;
 static const char *opname[NOPS] = {"encA(T1,n20,cbc,sha1)", "encB(T2,n70,ctr,md5)", "encC(T4,n100,ofb,sha256)", "decA(valid)", "decB(wrong key)", "decB(tampered)",
                                    "dec(garbage)", "dec(mode byte 9)", "verB(valid)", "verB(tampered)", "parse(-V)", "parse(-x unknown)", "parse(-dex aborts in cluster)",
-                                   "parse(-e -i F -o O -k K --cmode 2)", "decB(valid,T2)", "decB(valid) into an output that cannot be written (/dev/full)"};
+                                   "parse(-e -i F -o O -k K --cmode 2)", "decB(valid,T2)", "decB(valid) into an output that cannot be written (/dev/full)",
+                                   // the same verdict classes for every hash / cipher configuration: residue of a FAILED check of one kind must not reach a later one of another kind
+                                   "decC(valid,T4,ofb,sha256)", "decC(wrong key)", "decC(tampered)", "verC(valid)", "verC(wrong key)", "verC(tampered)",
+                                   "verA(valid,sha1)", "verA(wrong key)", "decA(wrong key)", "decA(tampered)", "verB(wrong key)", "ver(garbage)"};
 static void do_op(int op, bool &ret, std::vector<u8_t> &out)
 {
   OpResult r;
@@ -136,6 +139,42 @@ static void do_op(int op, bool &ret, std::vector<u8_t> &out)
     r.out.clear();
     break;
   }
+  case 16:
+    r = wv_decrypt(fx.fileC, fx.keyC, 4);
+    break;
+  case 17:
+    r = wv_decrypt(fx.fileC, fx.wrongC, 4);
+    break;
+  case 18:
+    r = wv_decrypt(fx.tamperedC, fx.keyC, 4);
+    break;
+  case 19:
+    r = wv_verify(fx.fileC, fx.keyC, 4);
+    break;
+  case 20:
+    r = wv_verify(fx.fileC, fx.wrongC, 4);
+    break;
+  case 21:
+    r = wv_verify(fx.tamperedC, fx.keyC, 4);
+    break;
+  case 22:
+    r = wv_verify(fx.fileA, fx.keyA, 1);
+    break;
+  case 23:
+    r = wv_verify(fx.fileA, fx.wrongA, 1);
+    break;
+  case 24:
+    r = wv_decrypt(fx.fileA, fx.wrongA, 1);
+    break;
+  case 25:
+    r = wv_decrypt(fx.tamperedA, fx.keyA, 1);
+    break;
+  case 26:
+    r = wv_verify(fx.fileB, fx.wrongkey, 2);
+    break;
+  case 27:
+    r = wv_verify(fx.garbage, fx.keyB, 2);
+    break;
   }
   ret = r.ret;
   out = r.out;
@@ -171,27 +210,38 @@ int main(int argc, char **argv)
     return 3;
   if (fork() == 0)
   {
-    OpResult a = wv_encrypt(fx.PA, fx.keyA, 1, 0, fx.seed, 1), b = wv_encrypt(fx.PB, fx.keyB, 2, 1, fx.seed, 2);
-    unsigned la = a.out.size(), lb = b.out.size();
-    if (write(pfd[1], &la, 4) + write(pfd[1], a.out.data(), la) + write(pfd[1], &lb, 4) + write(pfd[1], b.out.data(), lb) < 0)
+    OpResult a = wv_encrypt(fx.PA, fx.keyA, 1, 0, fx.seed, 1), b = wv_encrypt(fx.PB, fx.keyB, 2, 1, fx.seed, 2), c = wv_encrypt(fx.PC, fx.keyC, 4, 2, fx.seed, 4);
+    unsigned la = a.out.size(), lb = b.out.size(), lc = c.out.size();
+    if (write(pfd[1], &la, 4) + write(pfd[1], a.out.data(), la) + write(pfd[1], &lb, 4) + write(pfd[1], b.out.data(), lb) + write(pfd[1], &lc, 4) + write(pfd[1], c.out.data(), lc) < 0)
       _exit(1);
     _exit(0);
   }
   {
-    unsigned la = 0, lb = 0;
+    unsigned la = 0, lb = 0, lc = 0;
     if (read(pfd[0], &la, 4) != 4)
       return 3;
     fx.fileA.resize(la);
     if (read(pfd[0], fx.fileA.data(), la) != (ssize_t)la || read(pfd[0], &lb, 4) != 4)
       return 3;
     fx.fileB.resize(lb);
-    if (read(pfd[0], fx.fileB.data(), lb) != (ssize_t)lb)
+    if (read(pfd[0], fx.fileB.data(), lb) != (ssize_t)lb || read(pfd[0], &lc, 4) != 4)
+      return 3;
+    fx.fileC.resize(lc);
+    if (read(pfd[0], fx.fileC.data(), lc) != (ssize_t)lc)
       return 3;
     int st;
     wait(&st);
   }
   fx.tamperedB = fx.fileB;
   fx.tamperedB[fx.tamperedB.size() - 3] ^= 0x40;
+  fx.tamperedA = fx.fileA;
+  fx.tamperedA[fx.tamperedA.size() - 5] ^= 0x01;
+  fx.tamperedC = fx.fileC;
+  fx.tamperedC[fx.tamperedC.size() - 17] ^= 0x80;
+  fx.wrongA = fx.keyA;
+  fx.wrongA[15] ^= 0x11;
+  fx.wrongC = fx.keyC;
+  fx.wrongC[8] ^= 0x04;
   fx.garbage = rng.bytes(120);
   fx.modebyte = fx.fileB;
   fx.modebyte[9] = 9;
